@@ -43,8 +43,24 @@ def where_of(pre: Optional[int], op: int, mn: str) -> str:
     return f"{op:02X} {mn}"
 
 
+EDGE_ADDRS = frozenset((0x00000, 0xFFFFF, 0x100000, 0x1000FF))
+
+
+def touches_edge(py: Dict[str, Any], rs: Dict[str, Any]) -> bool:
+    """True when either core accessed (read or wrote) the first or last byte of the external or the internal
+    space: the only situations in which an address wrap-around can take place."""
+    for side in (py, rs):
+        for a, _ in side.get("writes", []):
+            if a in EDGE_ADDRS:
+                return True
+        for a in side.get("reads", []):
+            if a in EDGE_ADDRS:
+                return True
+    return False
+
+
 def compare_step(case: Dict[str, Any], py: Dict[str, Any], rs: Dict[str, Any], init: pycore.HashMemory,
-                 where: str) -> List[Violation]:
+                 where: str, regs0: Optional[Dict[str, int]] = None) -> List[Violation]:
     """Field-level differential of one executed step."""
     out: List[Violation] = []
     if "err" in py:
@@ -53,7 +69,7 @@ def compare_step(case: Dict[str, Any], py: Dict[str, Any], rs: Dict[str, Any], i
         out.append(Violation("rust-error", where, f"rust error: {rs['err'][:60]}", case,
                              f"python ok len={py.get('len')}; rust: {rs['err']}"))
         return out
-    regs0 = case["regs"]
+    regs0 = regs0 if regs0 is not None else case["regs"]
     diffs: List[str] = []
     details: List[str] = []
     if py.get("len") != rs.get("len"):
@@ -108,6 +124,8 @@ def compare_step(case: Dict[str, Any], py: Dict[str, Any], rs: Dict[str, Any], i
         details.append("mem " + ", ".join(f"{a:#x}: py={x:#04x} rs={y:#04x}" for a, x, y, _, _ in memdiff[:6]))
     if diffs:
         sub = ",".join(sorted(d.split(":")[0] for d in diffs))
+        if touches_edge(py, rs):
+            where = where + " @edge"
         out.append(Violation(sub, where, "; ".join(diffs), case, "; ".join(details)))
     return out
 
@@ -132,9 +150,9 @@ def eval_cases(cases: List[Tuple[Dict[str, Any], str, Any, List[str]]], rep: Rep
     B = 256
     for i in range(0, len(cases), B):
         chunk = cases[i:i + B]
-        rs_results = rust.cpu_batch([c[0] for c in chunk])
+        rs_results = rust.cpu_batch([dict(c[0], want_reads=True) for c in chunk])
         for (case, where, ntkey, labels), rs in zip(chunk, rs_results):
-            py = pycore.run_case(case)
+            py = pycore.run_case(case, want_reads=True)
             ps = py["steps"][0] if py["steps"] else {"err": "no step"}
             rss = rs["steps"][0] if rs.get("steps") else {"err": rs.get("error") or rs.get("panic") or "no step"}
             init = pycore.HashMemory(case["seed"], {pycore.canon(a): v for a, v in case["mem"]})
@@ -198,10 +216,91 @@ def _shard(task: Tuple[int, int, int, str]) -> Report:
     return rep
 
 
+CONTROL_FLOW = set(range(0x01, 0x08)) | set(range(0x10, 0x20)) | {0xFE, 0xFF, 0xDE, 0xDF}
+
+
+def _known_divergent_opcodes() -> set:
+    """Opcodes named by open C06 known findings (their `where` starts with the opcode in hex): lockstep
+    programs are built from the remaining opcodes so that a run is not ended at once by a listed finding."""
+    import re as _re
+    from .. import findings as F
+
+    ops = set()
+    for e in F.load_findings(PROPERTY):
+        if not F.is_open(e):
+            continue
+        for m in _re.finditer(r"\b([0-9A-F]{2}) [A-Z?]", str(e.get("match", {}).get("where", ""))):
+            ops.add(int(m.group(1), 16))
+        for o in e.get("opcodes", []):
+            ops.add(int(o, 16) if isinstance(o, str) else int(o))
+    return ops
+
+
+def _program_shard(task: Tuple[int, int, str, int]) -> Report:
+    shard, seed, tier, nprog = task
+    rep = Report()
+    rust = rsclient.shared()
+    excluded = _known_divergent_opcodes() | CONTROL_FLOW
+    ops = [o for o in range(256) if not G.is_pre(o) and o not in excluded]
+    rep.extra["lockstep_opcodes_excluded"] = len(excluded)
+    for pi in range(nprog):
+        st = S.Stream(seed, 0x10C, shard, pi)
+        n = 5 + st.below(36)
+        encs = []
+        for _ in range(n):
+            pre_j = G.PRES[st.below(len(G.PRES))] if st.chance(1, 3) else None
+            e1, filtered = G.sample_valid_encodings(st.u32(), 1, pres=[pre_j], opcodes=[ops[st.below(len(ops))]])
+            rep.filtered += filtered
+            encs += e1
+        code = b"".join(c for _, c in encs)
+        case, labels = S.gen_state(st, code, "", imax=6, pad=bytes(16))
+        case["regs"]["I"] = 1 + st.below(6)  # counted instructions inside programs stay short
+        case["steps"] = len(encs)
+        rs = rust.cpu_batch([dict(case, want_reads=True)])[0]
+        py = pycore.run_case(case, want_reads=True)
+        init = pycore.HashMemory(case["seed"], {pycore.canon(a): v for a, v in case["mem"]})
+        regs_prev = dict(case["regs"])
+        steps_ok = 0
+        diverged = False
+        for k, ps in enumerate(py["steps"]):
+            if k >= len(rs.get("steps", [])):
+                break
+            rss = rs["steps"][k]
+            if "err" in ps:
+                break
+            code_k = bytes(init.peek(ps["pc"] + j) for j in range(8))
+            ln = G.info_len(code_k + G.NOP_PAD)
+            mn, _ = describe(code_k[:ln] if ln else code_k)
+            pre = code_k[0] if code_k[0] in G.PRE_OPCODES else None
+            op = code_k[1] if pre is not None else code_k[0]
+            sub_case = dict(case)
+            sub_case["steps"] = k + 1
+            vs = compare_step(sub_case, ps, rss, init, where_of(pre, op, mn), regs_prev)
+            if vs:
+                for v in vs:
+                    v.subcheck = v.subcheck
+                    v.detail = f"lockstep step {k}: " + v.detail
+                    rep.violate(v)
+                diverged = True
+                break
+            for a, val in ps.get("writes", []):
+                init.over[a] = val
+            regs_prev = dict(ps["regs"])
+            steps_ok += 1
+        rep.labels[f"lockstep_steps_ok:{min(steps_ok // 10 * 10, 40)}+"] += 1
+        rep.extra["lockstep_steps"] = rep.extra.get("lockstep_steps", 0) + steps_ok
+        rep.case(f"prog:{jhash(code.hex())}" if steps_ok >= 3 else None,
+                 ["kind:lockstep", "lockstep:diverged" if diverged else "lockstep:agreed"],
+                 {"program": code.hex(), "steps_compared": steps_ok} if pi % 97 == 0 else None)
+    return rep
+
+
 def run(ctx: Ctx) -> Report:
     rsclient.build()
     nshards = 16 if ctx.quick else 64
     reports = ctx.pmap(_shard, [(i, nshards, ctx.seed, ctx.tier) for i in range(nshards)])
+    nprog = ctx.pick(16, 320)
+    reports += ctx.pmap(_program_shard, [(i, ctx.shard_seed(500 + i), ctx.tier, nprog) for i in range(16)])
     rep = ctx.merge_reports(reports)
     rep.rule = RULE
     rep.exhaustive = not ctx.quick
